@@ -719,7 +719,8 @@ class Gen:
         rng = self.rng
         if rng.random() < 0.45:
             return self.integer(d, env)
-        return Dd(rng.choice([0.5, 1.5, 2.5, 3.5, -0.5, 1, 2, 3, 0, 0.25, 1.75, 'inf', '-inf', 'nan', 4.5, 2.0]))
+        return Dd(rng.choice([0.5, 1.5, 2.5, 1.5, 0.5, 2.5, 3.5, -0.5, 1, 2, 3, 1, 2, 0, 0.25, 1.75, 'inf', '-inf', 'nan',
+                              4.5, 2.0, 1.0]))
 
     def boolean(self, d: int, env: Env):
         rng = self.rng
@@ -756,7 +757,8 @@ class Gen:
             if k < 0.45:
                 return seq([self.int_lit() for _ in range(rng.choice([0, 1, 2, 3, 3, 4, 5]))])
             if k < 0.7:
-                return ('to', self.int_lit(), self.int_lit())
+                a = rng.choice([-1, 0, 1, 1, 2, 3])
+                return ('to', I(a), I(a + rng.choice([-1, 0, 1, 2, 3, 4])))
             if k < 0.85 and env.svars:
                 return ('var', rng.choice(env.svars))
             return self.integer(0, env)
@@ -764,7 +766,7 @@ class Gen:
             return ('comma', self.iseq(d - 1, env), self.iseq(d - 1, env))
         if r < 0.42:
             f = env.with_focus()
-            pred = self.boolean(d - 1, f) if rng.random() < 0.7 else self.number(d - 1, f)
+            pred = self.boolean(d - 1, f) if rng.random() < 0.75 else self.number(d - 1, f)
             return ('filter', self.iseq(d - 1, env), pred)
         if r < 0.5:
             return ('map', self.iseq(d - 1, env), self.iseq(d - 1, env.with_focus()))
